@@ -18,6 +18,8 @@ orbifold as `delaney2d::orbifold_symbol` — both are decided by the Spec on eve
 import DSymVerif.Proofs.DSymGenGeom
 import DSymVerif.Proofs.DSymGenNodup
 import DSymVerif.Proofs.DSymGenCanon
+import DSymVerif.Proofs.DSymGenSum
+import DSymVerif.Proofs.DSymGenIso
 import DSymVerif.Proofs.DSymGenBox
 import DSymVerif.Proofs.Delaney2dChi
 import DSymVerif.Spec.C07
@@ -479,7 +481,7 @@ example : SpecC07.orbitsOk exOrbs = true ∧
     [3, 7] ∈ SpecC07.boxOf (exOrbs.map fun o => SpecC07.vminOf o.r) SpecC07.boxTop := by
   decide +kernel
 
-/-! ### open (not theorems): the statements, for the record -/
+/-! ### 7. phase 2: the generator's tables against the crate's curvature and the automorphism group -/
 
 /-- the Spec's view of the symbol (`ds`, `vs`): the tables the driver transmits -/
 def symOf (ds : DSetData) (c : Ctx) (vs : List Nat) : SpecC03.Sym :=
@@ -488,32 +490,114 @@ def symOf (ds : DSetData) (c : Ctx) (vs : List Nat) : SpecC03.Sym :=
       vTable c vs i (d0 + 1)).toArray }
 
 /-- a D-set in the property's domain: complete involutions, two-dimensional, s0 s2 = s2 s0, connected -/
-def InDomain (ds : DSetData) : Prop :=
-  ValidSet ds ∧ ds.dim = 2 ∧ ds.viewSimple.isConnected = true ∧
-  ∀ d, 1 ≤ d → d ≤ ds.size → ds.opU 2 (ds.opU 0 d) = ds.opU 0 (ds.opU 2 d)
+structure InDomain (ds : DSetData) : Prop where
+  valid : ValidSet ds
+  dim : ds.dim = 2
+  connected : ds.viewSimple.isConnected = true
+  far : FarCommute ds
+  nonempty : 1 ≤ ds.size
 
-/-- `f` is an automorphism of the D-set -/
-def IsAut (ds : DSetData) (f : Nat → Nat) : Prop :=
-  (∀ d, 1 ≤ d → d ≤ ds.size → 1 ≤ f d ∧ f d ≤ ds.size) ∧
-  (∀ d e, 1 ≤ d → d ≤ ds.size → 1 ≤ e → e ≤ ds.size → f d = f e → d = e) ∧
-  ∀ i d, i ≤ ds.dim → 1 ≤ d → d ≤ ds.size → f (ds.opU i d) = ds.opU i (f d)
+/-- **`is_chain` is right** (`collect_orbits`, any dimension): the flag of the (i,i+1)-orbit of a
+    chamber says whether that orbit contains a chamber fixed by `op i` or by `op (i+1)`. -/
+theorem is_chain_correct (s : DSetData) (h : ValidSet s) (i : Nat) (hi : i < s.dim) (x : Nat)
+    (hx1 : 1 ≤ x) (hx2 : x ≤ s.size) :
+    (collectOrbits s).isChain.getD (((collectOrbits s).index.getD i #[]).getD x 0) false = true ↔
+      ∃ z, Orb2 s i (i + 1) x z ∧ (s.opU i z = z ∨ s.opU (i + 1) z = z) :=
+  collectOrbits_isChain h hi hx1 hx2
 
-/-- the orbit map `m` is the action of `f` on the orbit numbers -/
-def Induces (c : Ctx) (f : Nat → Nat) (m : List Nat) : Prop :=
-  m.length = c.count ∧
-  ∀ i d, i < c.dset.dim → 1 ≤ d → d ≤ c.dset.size →
-    m.getD ((c.orbitIndex.getD i #[]).getD d 0) 0 = (c.orbitIndex.getD i #[]).getD (f d) 0
+theorem ex1_inDomain : InDomain ex1 := by
+  have hdim : ex1.dim = 2 := rfl
+  have hsize : ex1.size = 1 := rfl
+  have hop : ∀ i, i ≤ 2 → ex1.opU i 1 = 1 := by
+    intro i hi
+    rcases (by omega : i = 0 ∨ i = 1 ∨ i = 2) with rfl | rfl | rfl <;> decide
+  refine ⟨⟨by decide, ?_, ?_⟩, rfl, by decide +kernel, ?_, by decide⟩
+  · intro i d hi h1 h2
+    have hd : d = 1 := by omega
+    subst hd
+    rw [hop i (by omega)]; omega
+  · intro i d hi h1 h2
+    have hd : d = 1 := by omega
+    subst hd
+    rw [hop i (by omega), hop i (by omega)]
+  · intro i j d hij hj h1 h2
+    have hd : d = 1 := by omega
+    subst hd
+    rw [hop i (by omega), hop j (by omega), hop i (by omega)]
 
-/-- ◐ the orbit maps are exactly the action of the automorphism group of the D-set on its
-    (i,i+1)-orbits.  With `canonical_iff` this makes the canonical vectors exactly one (the
-    lexicographically largest) per automorphism class.  Needs `automorphisms()` exact (C04);
-    decided by the Spec clauses `no-two-emitted-symbols-isomorphic` and
-    `every-expected-class-is-emitted-exactly-once` on every explored case. -/
-def orbit_maps_exact_statement : Prop :=
-  ∀ (ds : DSetData) (g : Geom) (c : Ctx) (ms : List (List Nat)), InDomain ds →
-    mkCtx ds g = .ok c → c.maps = some ms →
-      (∀ m, m ∈ ms → ∃ f, IsAut ds f ∧ Induces c f m) ∧
-      (∀ f, IsAut ds f → ∃ m, m ∈ ms ∧ Induces c f m)
+example : ValidSet ex1 ∧ 0 < ex1.dim := ⟨ex1_inDomain.valid, by decide⟩
+
+/-- on a connected complete D-set `DSymBackTracking::new` does not panic -/
+theorem new_never_panics (ds : DSetData) (g : Geom) (hd : InDomain ds) : ∃ c, mkCtx ds g = .ok c :=
+  mkCtx_ok g hd.valid hd.connected hd.nonempty
+
+/-- **`curvQ_is_model_curvature`** (open item 3 of phase 1, closed on the model side): for every
+    D-set of the domain and every vector with one positive entry per orbit, the C08 model of
+    `delaney2d::curvature`, asked about the symbol the generator builds for that vector
+    (`PartialDSym::from_fields(dset, orbit_index, orbit_rs, vs)`, either representation), answers the
+    lowest-terms fraction of the exact rational curvature `curvQ c vs` = Σ_orbits k/v − size/2 that
+    the generator's integer bookkeeping represents (`scaled_curvature_exact`); it is the chamber sum
+    Σ_chambers (1/m01 + 1/m12 − 1/2).  (Uses C08's dihedral orbit-size lemma, C02's `collect_orbits`
+    correctness and `is_chain_correct`; the identity Σ_(0,2)-orbits (2|1)/v − size = −size/2 is
+    C08's `far_m`.) -/
+theorem curvQ_is_model_curvature (ds : DSetData) (g : Geom) (c : Ctx) (h : mkCtx ds g = .ok c)
+    (hd : InDomain ds) (vs : List Nat) (hl : vs.length = c.count)
+    (hpos : ∀ i, i < c.count → 1 ≤ vs.getD i 0) (rep : D2.Rep) :
+    D2.curvature ⟨emittedSym c vs, rep⟩ = .ok (D2.Frac.ofRat (curvQ c vs)) ∧
+    D2.chamberSum (emittedSym c vs) = curvQ c vs :=
+  curvature_emitted h hd.valid hd.dim hd.far vs hl hpos rep
+
+/-- **`orbit_maps_exact`** (open item 1 of phase 1, closed): for every D-set of the domain whose
+    context has `base_curvature ≥ 0`, `new` stores orbit maps; every stored map is the permutation
+    of the orbit numbers induced by an automorphism of the D-set (a self-map of the chambers
+    commuting with all operations — bijective, C04), every automorphism induces a stored map, and
+    the stored maps form a group of permutations of the orbit numbers (identity, composites,
+    inverses).  (From C04's `automorphisms_spec` and C02's `collect_orbits` correctness.) -/
+theorem orbit_maps_exact (ds : DSetData) (g : Geom) (c : Ctx) (h : mkCtx ds g = .ok c)
+    (hd : InDomain ds) (hnb : ¬ c.baseCurv < 0) :
+    ∃ ms, c.maps = some ms ∧
+      (∀ m, m ∈ ms → ∃ f, IsAut ds f ∧ Induces ds c.orbitIndex c.count f m) ∧
+      (∀ f, IsAut ds f → ∃ m, m ∈ ms ∧ Induces ds c.orbitIndex c.count f m) ∧
+      GroupMaps c.count ms := by
+  obtain ⟨ms, h1, _, h2, h3, h4⟩ := mkCtx_maps h hd.valid hd.connected hd.nonempty hnb
+  exact ⟨ms, h1, h2, h3, h4⟩
+
+/-- isomorphism of two symbols on the same D-set = relation by an orbit map -/
+theorem isomorphic_iff_orbit_map (ds : DSetData) (g : Geom) (c : Ctx) (h : mkCtx ds g = .ok c)
+    (hd : InDomain ds) (hnb : ¬ c.baseCurv < 0) (vs ws : List Nat) (hv : vs.length = c.count)
+    (hw : ws.length = c.count) :
+    SymIso ds c vs ws ↔ ∃ ms m, c.maps = some ms ∧ m ∈ ms ∧ ws = act m vs := by
+  obtain ⟨ms, h1, ok, h2, h3, _⟩ := mkCtx_maps h hd.valid hd.connected hd.nonempty hnb
+  rw [symIso_iff_act ok h2 h3 vs ws hv hw]
+  constructor
+  · rintro ⟨m, hm, e⟩; exact ⟨ms, m, h1, hm, e⟩
+  · rintro ⟨ms', m, h1', hm, e⟩
+    rw [h1] at h1'
+    cases h1'
+    exact ⟨m, hm, e⟩
+
+/-- **irredundancy for the model**: no two emitted symbols are isomorphic (an isomorphism between
+    symbols on the same D-set being an automorphism of the D-set that transports the branching
+    numbers), and in every isomorphism class of vectors exactly one vector passes `is_canonical`. -/
+theorem emitted_pairwise_non_isomorphic (ds : DSetData) (g : Geom) (c : Ctx) (h : mkCtx ds g = .ok c)
+    (hd : InDomain ds) (hnb : ¬ c.baseCurv < 0) :
+    (∀ vs ws, Outcome.ok vs ∈ dsyms c → Outcome.ok ws ∈ dsyms c → SymIso ds c vs ws → vs = ws) ∧
+    (∀ vs, vs.length = c.count →
+      ∃ w, SymIso ds c vs w ∧ w.length = c.count ∧ isCanonical c w = .ok true ∧
+        ∀ w', w'.length = c.count → SymIso ds c vs w' → isCanonical c w' = .ok true → w' = w) := by
+  obtain ⟨ms, hms, ok, hA, hB, hg⟩ := mkCtx_maps h hd.valid hd.connected hd.nonempty hnb
+  refine ⟨fun vs ws hv hw hiso =>
+    emitted_not_isomorphic h hd.valid hd.connected hd.nonempty hnb vs ws hv hw hiso, fun vs hl => ?_⟩
+  obtain ⟨w, ⟨m, hm, hwm⟩, hcan, huniq⟩ := SymGen.canonical_one_per_class hg vs hl
+  have hwl : w.length = c.count := by rw [hwm, act_length, hl]
+  refine ⟨w, (symIso_iff_act ok hA hB vs w hl hwl).mpr ⟨m, hm, hwm⟩, hwl, ?_, ?_⟩
+  · unfold isCanonical; rw [hms]; exact hcan
+  · intro w' hw'l hiso hcan'
+    unfold isCanonical at hcan'
+    rw [hms] at hcan'
+    exact huniq w' ((symIso_iff_act ok hA hB vs w' hl hw'l).mp hiso) hcan'
+
+/-! ### open (not theorems): the statements, for the record -/
 
 /-- ◐ for positive curvature the key built by the generator's private `orbifold_symbol` is on the
     list iff the orbifold named by `delaney2d::orbifold_symbol` (C08 model, as the Spec uses it)
@@ -525,10 +609,10 @@ def private_orbifold_symbol_agrees_statement : Prop :=
     SpecC07.orbOf (symOf ds c vs) (symOf ds c vs).v = some b →
       (Tables.goodSphericalOrbifolds.contains key = true ↔ SpecC07.onGoodList b = true)
 
-/-- ◐ the exact rational curvature of the generator's orbit tables (in which `dsyms_output` is
-    stated) is the Spec's curvature of the same assignment.  Needs the dihedral orbit-size lemma
-    (C08) and the correctness of `collect_orbits`' chain flag (C02); decided by the Spec clauses
-    on the curvature of every emitted symbol and by the set comparison. -/
+/-- ◐ the Spec's own curvature of the same assignment (orbits by naive closure) is the same number
+    (`curvQ_is_model_curvature` identifies `curvQ` with the crate's curvature model and the chamber
+    sum; what is left is the correctness of the Spec's closure and period loops).  Decided by the
+    Spec clause `curvature-is-the-chamber-sum-and-the-crates-curvature` on every emitted symbol. -/
 def curvQ_is_spec_curvature_statement : Prop :=
   ∀ (ds : DSetData) (g : Geom) (c : Ctx) (vs : List Nat), InDomain ds →
     mkCtx ds g = .ok c → Adm c vs →
